@@ -502,31 +502,47 @@ for _V, _N in zip(beta_values, self.betaNames):
     ctx.add(rule, 'RawResults.__init__:betas', ok, f, 'value i is paired with free_betas.names[i] and with the bounds looked up by that name' if ok else 'pairing of estimates, names and bounds in RawResults changed', 'rawresults')
     BR = prog.cls('results', 'bioResults')
     f = BR.methods['get_beta_values']
-    ok = has(f.node, """
+    from .pattern import _parse, find, m_node
+
+    b = find(f.node, """
 for _B in my_betas:
     try:
-        _I = self.data.betaNames.index(_B)
+        _I = __TABLE.index(_B)
         _VALS[_B] = self.data.betas[_I].value
     except KeyError as _EXC:
         ___
-""") or has(f.node, "for _B in my_betas:\n    _I = self.data.betaNames.index(_B)\n    _VALS[_B] = self.data.betas[_I].value")
-    ctx.add(rule, 'bioResults.get_beta_values', ok, f, 'the value of a requested name is betas[betaNames.index(name)]' if ok else 'estimates are no longer looked up through betaNames.index(name)', 'get_beta_values')
+""") or find(f.node, "for _B in my_betas:\n    _I = __TABLE.index(_B)\n    _VALS[_B] = self.data.betas[_I].value")
+    if b is None:
+        ctx.shape(rule, 'bioResults.get_beta_values', False, f, '', 'for each requested name: position = <table>.index(name); value = betas[position].value')
+    else:
+        tbl = unparse(b['__TABLE'][1])
+        ok = tbl == 'self.data.betaNames'
+        ctx.add(rule, 'bioResults.get_beta_values', ok, f, 'the value of a requested name is betas[betaNames.index(name)]' if ok
+                else f'the position of a requested name is looked up in {tbl}: betas follow betaNames, so the value of another parameter is returned as soon as the request is not the full sorted list', tbl)
     f = BR.methods['get_betas_for_sensitivity_analysis']
-    from .pattern import _parse, m_node
-
     comps = [c for c in walk_no_nested(f.node) if isinstance(c, ast.ListComp) and isinstance(c.elt, ast.DictComp)]
-    ok = len(comps) >= 2
+    verdict = True if len(comps) >= 2 else None
     det = ''
     for c in comps:
         b = {}
-        good = m_node(_parse('[{my_betas[_I]: _V for _I, _V in enumerate(_ROW)} for _ROW in __M[:, _IDX]]')[0].value, c, b)
-        if good:
-            # the columns are those of the requested names, in the order of the request
-            defs = [a for a in walk_no_nested(f.node) if isinstance(a, ast.Assign) and unparse(a.targets[0]) == b['_IDX'] and seq(a) < seq(c)]
-            good = bool(defs) and all(m_node(_parse('[self.data.betaNames.index(_B) for _B in my_betas]')[0].value, a.value, {}) for a in defs)
-        if not good:
-            ok = False
-            det = unparse(c)[:160]
-    ctx.add(rule, 'bioResults.get_betas_for_sensitivity_analysis', ok, f,
-            'column betaNames.index(name) of the draws is reported under that name, for the names requested and in their order' if ok
-            else f'draws of the estimates are no longer labelled my_betas[i] over the columns [betaNames.index(b) for b in my_betas]: {det}', det)
+        if not m_node(_parse('[{__LABEL: _V for _I, _V in enumerate(_ROW)} for _ROW in __M[:, _IDX]]')[0].value, c, b):
+            verdict, det = None, unparse(c)[:160]
+            continue
+        label = unparse(b['__LABEL'][1])
+        # inside the comprehension the metavariable _I is local: recover its name from the generator
+        ivar = unparse(c.elt.generators[0].target.elts[0])
+        if label != f'my_betas[{ivar}]':
+            verdict, det = False, f'values of the selected columns are labelled {label}; column i of the selection belongs to my_betas[i]'
+            break
+        defs = [a for a in walk_no_nested(f.node) if isinstance(a, ast.Assign) and unparse(a.targets[0]) == b['_IDX'] and seq(a) < seq(c)]
+        for a in defs:
+            bb = {}
+            if not m_node(_parse('[__T.index(_B) for _B in my_betas]')[0].value, a.value, bb):
+                verdict, det = None, unparse(a)[:160]
+            elif unparse(bb['__T'][1]) != 'self.data.betaNames':
+                verdict, det = False, f'columns are selected through {unparse(bb["__T"][1])}.index(name); the columns of the draws follow betaNames'
+        if not defs:
+            verdict, det = None, 'no definition of the selected columns'
+    ctx.add(rule, 'bioResults.get_betas_for_sensitivity_analysis', verdict, f,
+            'column betaNames.index(name) of the draws is reported under that name, for the names requested and in their order' if verdict
+            else (det if verdict is False else f'shape not recognised - expected: [{{my_betas[i]: value for i, value in enumerate(row)}} for row in draws[:, [betaNames.index(b) for b in my_betas]]]: {det}'), det)
